@@ -19,6 +19,8 @@
 /* std::min / std::max on operands of one type */
 #define BT_MIN(a, b) ((b) < (a) ? (b) : (a))
 #define BT_MAX(a, b) ((a) < (b) ? (b) : (a))
+#define BT_MIN_T(T, a, b) BT_MIN((T)(a), (T)(b))
+#define BT_MAX_T(T, a, b) BT_MAX((T)(a), (T)(b))
 
 unsigned nondet_unsigned(void);
 int nondet_int(void);
